@@ -975,6 +975,11 @@ static int pdu_calculateHmac_v2(KSI_CTX* ctx, const void* pdu,
 		goto cleanup;
 	}
 
+	if (payload_len < KSI_getHashLength(algo_id)) {
+		KSI_pushError(ctx, res = KSI_INVALID_FORMAT, "PDU is shorter than the HMAC digest.");
+		goto cleanup;
+	}
+
 	res = KSI_HMAC_create(ctx, algo_id, key, raw_payload, payload_len - KSI_getHashLength(algo_id), &tmp);
 	if (res != KSI_OK) {
 		KSI_pushError(ctx, res, "Failed to calculate HMAC from serialized PDU.");
